@@ -430,6 +430,7 @@ Variable vname : string -> V.
 Variable dflt : string -> V.
 Variable TS : tsfacts.
 Variable tsres : list V.
+Variable GATTRS : list string.
 Hypothesis RES_nodup : NoDup (map fst RES).
 
 Local Notation rec := (@rec V).
@@ -1325,7 +1326,7 @@ Theorem group_set_ref : forall (g : group) k v, group_ok g ->
           (match first_index k (gmembers g) with
            | Some i => upd_nth i (fun m => rec_set m k v) (gmembers g)
            | None => gmembers g
-           end) (gtab g).
+           end) (gtab g) (gattr g).
 Proof.
   intros g k v [_ [Htab _]]. unfold Compose.group_set. rewrite (Htab k), <- ref_slot_first_index.
   destruct (ref_slot k (gmembers g)) as [[t i]|]; simpl; [reflexivity|]. destruct g; reflexivity.
@@ -1445,9 +1446,10 @@ Proof.
   intros. unfold p_iter_timestamped, Compose.iter_timestamped. destruct (ts_fields r); [reflexivity|apply p_expand_loop_std].
 Qed.
 
-Lemma p_group_make_std : forall nm (args : list garg), @p_group_make V RES std_facts nm args = group_make nm args.
+Lemma p_group_make_std : forall nm (args : list garg), @p_group_make V RES GATTRS std_facts nm args = group_make nm args.
 Proof.
   intros. unfold p_group_make, Compose.group_make.
+  unfold p_shadowed. simpl.
   assert (H : fold_left (@p_group_add V RES std_facts) args ([], []) = fold_left group_add args ([], [])).
   { apply fold_left_ext. intros st a. destruct a; reflexivity. }
   rewrite H. reflexivity.
@@ -1464,7 +1466,7 @@ Proof.
 Qed.
 
 Lemma p_group_replace_std : forall (g : group) (kw : @dict V),
-  @p_group_replace V RES vver dflt std_facts g kw = group_replace g kw.
+  @p_group_replace V RES vver dflt GATTRS std_facts g kw = group_replace g kw.
 Proof.
   intros. unfold p_group_replace, Compose.group_replace. rewrite p_replace_members_std.
   destruct (replace_members (gmembers g) kw) as [ms kw']. rewrite p_group_make_std. destruct kw'; reflexivity.
@@ -1520,6 +1522,7 @@ Variable vname : string -> V.
 Variable dflt : string -> V.
 Variable TS : tsfacts.
 Variable tsres : list V.
+Variable GATTRS : list string.
 Variable F : facts.
 Hypothesis F_ok : facts_ok F = true.
 Hypothesis T_ok : tables_ok RES TS = true.
@@ -1565,9 +1568,9 @@ Qed.
 
 Lemma group_view_facts : forall nm (args : list (@garg V)),
   Forall (arg_ok RES) args -> List.concat (map (@arg_members V) args) <> [] ->
-  group_ok RES (p_group_make RES F nm args) /\
-  gmembers (p_group_make RES F nm args) = List.concat (map (@arg_members V) args) /\
-  p_group_view RES dflt F (p_group_make RES F nm args) = ref_group_view RES dflt nm (List.concat (map (@arg_members V) args)).
+  group_ok RES (p_group_make RES GATTRS F nm args) /\
+  gmembers (p_group_make RES GATTRS F nm args) = List.concat (map (@arg_members V) args) /\
+  p_group_view RES dflt F (p_group_make RES GATTRS F nm args) = ref_group_view RES dflt nm (List.concat (map (@arg_members V) args)).
 Proof.
   intros nm args Hargs Hne. destruct tables_ok_inv as [Hnd _].
   rewrite (facts_ok_eq F F_ok), p_group_make_std, p_group_view_std.
@@ -1576,10 +1579,29 @@ Proof.
   rewrite (group_view_ref RES dflt Hnd _ Hok) by (rewrite Hm; exact Hne). rewrite Hm. reflexivity.
 Qed.
 
+(* a group built from nested groups has the flat view of the group built from the flattened member list *)
+Lemma nested_flatten_facts : forall nm (args : list (@garg V)),
+  Forall (arg_ok RES) args -> List.concat (map (@arg_members V) args) <> [] ->
+  p_group_view RES dflt F (p_group_make RES GATTRS F nm args) =
+  p_group_view RES dflt F (p_group_make RES GATTRS F nm (map (@ARec V) (List.concat (map (@arg_members V) args)))).
+Proof.
+  intros nm args Hargs Hne.
+  destruct (group_view_facts nm args Hargs Hne) as [Hok [Hm Hv]]. rewrite Hv.
+  assert (Hflat : List.concat (map (@arg_members V) (map (@ARec V) (List.concat (map (@arg_members V) args)))) =
+                  List.concat (map (@arg_members V) args)).
+  { generalize (List.concat (map (@arg_members V) args)). intros ms. induction ms as [|m ms IH]; simpl; [reflexivity|].
+    rewrite IH. reflexivity. }
+  assert (Hwf : Forall (arg_ok RES) (map (@ARec V) (List.concat (map (@arg_members V) args)))).
+  { destruct Hok as [Hw _]. rewrite Hm in Hw. rewrite Forall_forall in *. intros a Ha. apply in_map_iff in Ha.
+    destruct Ha as [m [Hm' Hin]]. subst a. simpl. apply Hw. exact Hin. }
+  destruct (group_view_facts nm _ Hwf) as [_ [_ Hv2]]; [rewrite Hflat; exact Hne|].
+  rewrite Hv2, Hflat. reflexivity.
+Qed.
+
 Lemma group_replace_facts : forall (g : @group V) (kw : @dict V),
   Forall (wf RES) (gmembers g) -> NoDup (keys kw) ->
-  p_group_replace RES vver dflt F g kw =
-  option_map (fun ms => p_group_make RES F (gname g) (map (@ARec V) ms)) (ref_group_replace RES vver (gmembers g) kw).
+  p_group_replace RES vver dflt GATTRS F g kw =
+  option_map (fun ms => p_group_make RES GATTRS F (gname g) (map (@ARec V) ms)) (ref_group_replace RES vver (gmembers g) kw).
 Proof.
   intros g kw Hwf Hkw. destruct tables_ok_inv as [Hnd _]. rewrite (facts_ok_eq F F_ok), p_group_replace_std.
   rewrite (group_replace_ref RES vver dflt Hnd g kw Hwf Hkw).
